@@ -3578,9 +3578,12 @@ Octagonal_Shape<T>::simplify_using_context_assign(const Octagonal_Shape& y) {
       }
     }
   }
-  // This point should be unreachable.
-  PPL_UNREACHABLE;
-  return false;
+  // With an exact coefficient type this point is unreachable.
+  // With an inexact one, the upward rounding of the incremental
+  // closure of `yy' may prevent the target from being reached:
+  // leaving `*this' as it is is always a correct (though maybe not
+  // the simplest) answer.
+  return bool_result;
 }
 
 template <typename T>
